@@ -367,33 +367,69 @@ REPLAY_BINS = {
 }
 
 
+# a second build profile for the native harnesses: debug assertions and overflow checks off, as in `--release`
+NO_DEBUG_PROFILE = ["--config", "profile.dev.debug-assertions=false", "--config", "profile.dev.overflow-checks=false"]
+
+# the builder-side harnesses also exist in /verif/replay_noasync: the SAME sources compiled against fn_graph with
+# `default-features = false` (no `async` feature: FnGraph has no edge counts, build() compiles differently)
+NOASYNC_BINS = {"C11": ["c11_build"], "C12": ["c11_build"], "C13": ["c13_ranks"], "C14": ["c14_seq"], "C16": ["c16_edges"]}
+
+
+def _native_jobs(prop, repo, outdir):
+    """(label, cwd, cmd) of every native run registered for the property: each harness in the dev profile, then in the
+    profile without debug assertions, then (builder side) against the crate without its `async` feature."""
+    jobs = []
+    crate = _crate_for(repo, "replay", outdir)
+    tdir = os.path.join(VERIF, "replay", "target") if repo == "/repo" else os.path.join(outdir, "replay_target")
+    for prof, plabel in (([], ""), (NO_DEBUG_PROFILE, ", build without debug assertions")):
+        for b in REPLAY_BINS.get(prop, []):
+            name, extra = b[0], b[1]
+            pargs = b[2] if len(b) > 2 else []
+            cmd = ["cargo", "run"] + prof + ["--offline", "--quiet", "--target-dir", tdir, "--bin", name] + extra + (["--"] + pargs if pargs else [])
+            jobs.append((f"{name} {' '.join(pargs)}".strip() + plabel, crate, cmd, bool(prof), {}))
+    # the whole-run harness once more on a tokio current-thread runtime (its cooperative budget changes which polls return Pending)
+    for b in REPLAY_BINS.get(prop, []):
+        if b[0] == "c_run":
+            cmd = ["cargo", "run", "--offline", "--quiet", "--target-dir", tdir, "--bin", "c_run"] + b[1] + ["--"] + b[2]
+            jobs.append((f"c_run {' '.join(b[2])}, driven by a tokio runtime", crate, cmd, True, {"VERIF_EXECUTOR": "tokio"}))
+    if NOASYNC_BINS.get(prop):
+        crate2 = _crate_for(repo, "replay_noasync", outdir)
+        if repo != "/repo":
+            # the crate takes its sources from ../replay/src: point it at the copy made above
+            p_ = os.path.join(crate2, "Cargo.toml")
+            open(p_, "w").write(open(p_).read().replace("../replay/src", os.path.join(crate, "src")))
+        tdir2 = os.path.join(VERIF, "replay_noasync", "target") if repo == "/repo" else os.path.join(outdir, "replay_noasync_target")
+        for name in NOASYNC_BINS[prop]:
+            cmd = ["cargo", "run", "--offline", "--quiet", "--target-dir", tdir2, "--bin", name]
+            jobs.append((f"{name}, fn_graph without its `async` feature", crate2, cmd, True, {}))
+    return jobs
+
+
 def bounded_exploration(prop, repo, outdir, seeds):
     """Thorough tier: every native harness registered for the property is run on the tree under several driver seeds.
     These are BOUNDED checks (never counted as proved); a concrete failing input found on the real crate is reported."""
     out, found = [], None
-    bins = list(REPLAY_BINS.get(prop, []))
     crate = _crate_for(repo, "replay", outdir)
     tdir = os.path.join(VERIF, "replay", "target") if repo == "/repo" else os.path.join(outdir, "replay_target")
-    for b in bins:
-        name, extra = b[0], b[1]
-        pargs = b[2] if len(b) > 2 else []
-        cmd = ["cargo", "run", "--offline", "--quiet", "--target-dir", tdir, "--bin", name] + extra + (["--"] + pargs if pargs else [])
-        for sd in seeds:
-            env = dict(ENV, VERIF_SEED=str(sd))
+    for label, cwd, cmd, secondary, jenv in _native_jobs(prop, repo, outdir):
+        # every driver seed in the default configuration; the other configurations once, with the last seed
+        for sd in (seeds[-1:] if secondary else seeds):
+            env = dict(ENV, VERIF_SEED=str(sd), **jenv)
             t0 = time.time()
+            what = f"native search {label} (driver seed {sd})"
             try:
-                r = subprocess.run(cmd, cwd=crate, env=env, capture_output=True, text=True, timeout=1200)
+                r = subprocess.run(cmd, cwd=cwd, env=env, capture_output=True, text=True, timeout=1200)
             except subprocess.TimeoutExpired:
-                out.append({"what": f"native search {name} {' '.join(pargs)} (driver seed {sd})", "bound": "see the harness header", "result": "timed out after 1200 s", "backend": "native"})
+                out.append({"what": what, "bound": "see the harness header", "result": "timed out after 1200 s", "backend": "native"})
                 continue
             txt = r.stdout + r.stderr
             ok = [l for l in txt.splitlines() if l.startswith("OK")]
             if r.returncode == 1 and "VIOLATION" in txt:
-                found = {"kind": "native-replay", "cmd": "cd " + crate + f" && VERIF_SEED={sd} CARGO_NET_OFFLINE=true " + " ".join(cmd),
+                found = {"kind": "native-replay", "cmd": "cd " + cwd + f" && VERIF_SEED={sd} " + "".join(f"{k}={v} " for k, v in jenv.items()) + "CARGO_NET_OFFLINE=true " + " ".join(cmd),
                          "output": "\n".join(l for l in txt.splitlines() if "VIOLATION" in l)[:2000]}
-                out.append({"what": f"native search {name} {' '.join(pargs)} (driver seed {sd})", "bound": "see the harness header", "result": "COUNTEREXAMPLE: " + found["output"][:300], "backend": "native"})
+                out.append({"what": what, "bound": "see the harness header", "result": "COUNTEREXAMPLE: " + found["output"][:300], "backend": "native"})
                 return out, found
-            out.append({"what": f"native search {name} {' '.join(pargs)} (driver seed {sd})", "bound": (ok[-1][:200] if ok else "ran"), "result": "no counterexample" if r.returncode == 0 else f"exit {r.returncode}", "backend": "native", "wall_s": round(time.time() - t0, 1)})
+            out.append({"what": what, "bound": (ok[-1][:200] if ok else "ran"), "result": "no counterexample" if r.returncode == 0 else f"exit {r.returncode}", "backend": "native", "wall_s": round(time.time() - t0, 1)})
     # audit of the assumed dependency contracts (prelude stubs of daggy / petgraph / tokio mpsc / futures) against the real
     # crates: a disagreement invalidates the trusted base, it is not a property violation
     cmd = ["cargo", "run", "--offline", "--quiet", "--target-dir", tdir, "--bin", "audit_deps"]
@@ -412,21 +448,13 @@ def bounded_exploration(prop, repo, outdir, seeds):
 
 def replay_search(prop, oid, v, repo, outdir):
     """Best-effort search for a concrete failing input on the REAL crate (never decides a property)."""
-    bins = REPLAY_BINS.get(prop, [])
-    if not bins:
-        return None
-    crate = _crate_for(repo, "replay", outdir)
-    tdir = os.path.join(VERIF, "replay", "target") if repo == "/repo" else os.path.join(outdir, "replay_target")
-    for b in bins:
-        name, extra = b[0], b[1]
-        pargs = b[2] if len(b) > 2 else []
-        cmd = ["cargo", "run", "--offline", "--quiet", "--target-dir", tdir, "--bin", name] + extra + (["--"] + pargs if pargs else [])
+    for label, cwd, cmd, secondary, jenv in _native_jobs(prop, repo, outdir):
         try:
-            r = subprocess.run(cmd, cwd=crate, env=ENV, capture_output=True, text=True, timeout=900)
+            r = subprocess.run(cmd, cwd=cwd, env=dict(ENV, **jenv), capture_output=True, text=True, timeout=900)
         except subprocess.TimeoutExpired:
             continue
         out = r.stdout + r.stderr
         if r.returncode == 1 and "VIOLATION" in out:
-            return {"kind": "native-replay", "cmd": "cd " + crate + " && CARGO_NET_OFFLINE=true " + " ".join(cmd),
+            return {"kind": "native-replay", "cmd": "cd " + cwd + " && " + "".join(f"{k}={v} " for k, v in jenv.items()) + "CARGO_NET_OFFLINE=true " + " ".join(cmd),
                     "output": "\n".join(l for l in out.splitlines() if "VIOLATION" in l or l.startswith("OK"))[:2000]}
     return None
